@@ -82,7 +82,7 @@ def l2_case(draw, tier="quick"):
     m = max(1, n)
     return {"shape": draw(st.sampled_from(SHAPES2)), "v": [draw(C.ints(6)) for _ in range(4)], "pts": [[draw(C.ints(6)), draw(C.ints(6))] for _ in range(m)],
             "where": [draw(st.sampled_from(["off", "on", "origin", "off"])) for _ in range(m)], "t": [draw(st.integers(-3, 3)) for _ in range(m)],
-            "n": n, "s": draw(C.scale()), "bcast_line": draw(st.booleans())}
+            "n": n, "s": draw(C.scale()), "bcast_line": draw(st.booleans()), "ps": [draw(C.scale()) for _ in range(m)]}
 
 
 def line2_from(c):
@@ -123,12 +123,14 @@ def run_l2(c):
     on = np.abs((pts - a) @ nrm) < 1e-12
     foot = pts - np.outer(((pts - a) @ nrm) / (nrm @ nrm), nrm)
     mir = 2 * foot - pts
+    # the points are given by arbitrary representatives (every point its own non-zero factor)
+    psc = np.array([C.scale_value(x) for x in (c.get("ps") or [[1, 0, 1]] * m)][:m] + [1.0] * max(0, m - len(c.get("ps") or [])))[:m]
     if n:
-        Q = PointCollection(np.concatenate([pts, np.ones((m, 1))], axis=1))
+        Q = PointCollection(np.concatenate([pts, np.ones((m, 1))], axis=1) * psc[:, None])
         if not c["bcast_line"]:
             L = LineCollection(np.stack([L.array * (1 + i % 2) for i in range(m)]))
     else:
-        Q = P(pts[0])
+        Q = P(pts[0], psc[0])
     tag = f"line2:{'coll' if n else 'single'}"
     ck = Checker()
     r, f = call(tag + ":perpendicular", L.perpendicular, Q)
@@ -229,7 +231,7 @@ def s3_case(draw, tier="quick"):
     m = max(1, n)
     return {"kind": draw(st.sampled_from(["line", "plane"])), "shape": draw(st.sampled_from(["generic", "axis", "origin"])), "v": [draw(C.ints(6)) for _ in range(9)],
             "pts": [[draw(C.ints(6)) for _ in range(3)] for _ in range(m)], "where": [draw(st.sampled_from(["off", "on", "off", "origin"])) for _ in range(m)],
-            "t": [[draw(st.integers(-3, 3)), draw(st.integers(-3, 3))] for _ in range(m)], "n": n, "s": draw(C.scale())}
+            "t": [[draw(st.integers(-3, 3)), draw(st.integers(-3, 3))] for _ in range(m)], "n": n, "s": draw(C.scale()), "ps": [draw(C.scale()) for _ in range(m)]}
 
 
 def run_s3(c):
@@ -275,7 +277,8 @@ def run_s3(c):
         foot = pts - np.outer(((pts - a) @ nrm) / (nrm @ nrm), nrm)
     on = np.linalg.norm(pts - foot, axis=1) < 1e-12
     mir = 2 * foot - pts
-    Q = PointCollection(np.concatenate([pts, np.ones((m, 1))], axis=1)) if n else P(pts[0])
+    psc = np.array([C.scale_value(x) for x in (c.get("ps") or [[1, 0, 1]] * m)][:m] + [1.0] * max(0, m - len(c.get("ps") or [])))[:m]
+    Q = PointCollection(np.concatenate([pts, np.ones((m, 1))], axis=1) * psc[:, None]) if n else P(pts[0], psc[0])
     tag = f"{kind}3:{'coll' if n else 'single'}"
     # perpendicular
     r, f = call(tag + ":perpendicular", S.perpendicular, Q)
